@@ -1286,6 +1286,12 @@ func (e *Engine) Discharge(obs []*Obligation, opts DischargeOpts) {
 				}
 				mu.Lock()
 				results[j.ob] = append(results[j.ob], r)
+				if ms := int(r.Seconds * 1000); ms > e.Stats["max-query-ms"] {
+					e.Stats["max-query-ms"] = ms
+				}
+				if os.Getenv("GVC_SLOW") != "" && r.Seconds > 2 {
+					fmt.Fprintf(os.Stderr, "SLOW %.1fs %s sub %d/%d %s\n", r.Seconds, j.ob.Name, j.idx, j.nsub, r.Status)
+				}
 				mu.Unlock()
 			}
 		}()
